@@ -3,6 +3,7 @@
 //! request : C04.fix \t <gen:<seed> | decl:<seed> | lit:<seed> | disk:<root>|<entry> | text:<hex of source>>
 //!           `dfn:<seed>` = the declaration-form stream (c04/declforms.rs): prototype + definition with defaults on either side,
 //!           forward-declared functions called before their definition, methods, rarely used exporter features
+//!           `tdr:<seed>` = resources / resource arrays declared through typedefs (c04/tdres.rs)
 //!           `lit:<seed>` = the literal stream: a program whose initialisers, arguments, array sizes and operands are
 //!           numeric literals of every suffix (none, `f`, `h`, `L`, `u`, hex) — long decimal constants (20–30 significant
 //!           digits), values whose shortest decimal has 15–17 digits, exponent forms, negative zero, subnormal / huge
@@ -14,6 +15,7 @@
 mod declforms;
 mod names;
 mod reelab;
+mod tdres;
 mod tmpl;
 
 use crate::compile_util::*;
@@ -254,6 +256,9 @@ fn first_generation(id: &str) -> Option<CompileOutcome> {
     } else if let Some(seed) = id.strip_prefix("dfn:") {
         let seed: u64 = seed.parse().ok()?;
         Some(compile_src(&declforms::source(seed), Tgt::Dx, Mode::NoPipeline))
+    } else if let Some(seed) = id.strip_prefix("tdr:") {
+        let seed: u64 = seed.parse().ok()?;
+        Some(compile_src(&tdres::source(seed), Tgt::Dx, Mode::NoPipeline))
     } else if let Some(rest) = id.strip_prefix("disk:") {
         let (root, entry) = rest.split_once('|')?;
         Some(compile_disk(root, entry, Tgt::Dx, Mode::NoPipeline))
@@ -277,6 +282,8 @@ fn source_text(id: &str) -> Option<String> {
         Some(tmpl::source(seed.parse().ok()?))
     } else if let Some(seed) = id.strip_prefix("dfn:") {
         Some(declforms::source(seed.parse().ok()?))
+    } else if let Some(seed) = id.strip_prefix("tdr:") {
+        Some(tdres::source(seed.parse().ok()?))
     } else if let Some(h) = id.strip_prefix("text:") {
         Some(String::from_utf8_lossy(&unhex(h)?).to_string())
     } else {
@@ -316,9 +323,19 @@ fn run_one(id: &str, out: &mut Out, hist: &mut Hist) {
             let oracle = match &g2 {
                 CompileOutcome::Ok(ps2) => {
                     let p2 = &ps2[0];
-                    if p2.data != p1.data {
+                    let (const_lines, other_diff) =
+                        if p2.data != p1.data { tdres::split_const_lines(&text1, &p2.text()) } else { (0, None) };
+                    if const_lines > 0 && other_diff.is_none() && p2.slots != p1.slots {
+                        hist.add("not-fixpoint-slots");
+                        format!("FAIL:binding slots differ between generations: {:?} vs {:?}", p1.slots, p2.slots)
+                    } else if const_lines > 0 && other_diff.is_none() {
+                        // every differing line is of the known class `const` of the element type printed once (tdres.rs)
+                        hist.add("not-fixpoint-text:element-const");
+                        format!("FAIL:second generation differs: {} {}", first_diff(&text1, &p2.text()), tdres::CONST_TAG)
+                    } else if p2.data != p1.data {
                         hist.add("not-fixpoint-text");
-                        let d = first_diff(&text1, &p2.text());
+                        // lines of the known element-const class are passed over: the first OTHER differing line is reported
+                        let d = other_diff.unwrap_or_else(|| first_diff(&text1, &p2.text()));
                         // template stream: the generator's own record of argument kinds names the known class
                         let tag = id
                             .strip_prefix("tpl:")
@@ -370,6 +387,8 @@ fn dump(id: &str) {
         tmpl::source(seed.parse().unwrap())
     } else if let Some(seed) = id.strip_prefix("dfn:") {
         declforms::source(seed.parse().unwrap())
+    } else if let Some(seed) = id.strip_prefix("tdr:") {
+        tdres::source(seed.parse().unwrap())
     } else if let Some(h) = id.strip_prefix("text:") {
         String::from_utf8_lossy(&unhex(h).unwrap_or_default()).to_string()
     } else {
@@ -407,6 +426,8 @@ pub fn run(args: &Args, out: &mut Out) {
             tmpl::source(seed.parse().unwrap_or(0))
         } else if let Some(seed) = id.strip_prefix("dfn:") {
             declforms::source(seed.parse().unwrap_or(0))
+        } else if let Some(seed) = id.strip_prefix("tdr:") {
+            tdres::source(seed.parse().unwrap_or(0))
         } else if let Some(h) = id.strip_prefix("text:") {
             String::from_utf8_lossy(&unhex(h).unwrap_or_default()).to_string()
         } else {
@@ -438,6 +459,13 @@ pub fn run(args: &Args, out: &mut Out) {
     if args.extra.first().map(|s| s == "search-requests").unwrap_or(false) {
         for src in literal_search_sources() {
             println!("C04.fix\ttext:{}", hex(src.as_bytes()));
+        }
+        // resources declared through typedefs (obligation slot_peel_as_modelled / a peel theorem of C05 no longer checks)
+        for src in tdres::fixed_sources() {
+            println!("C04.fix\ttext:{}", hex(src.as_bytes()));
+        }
+        for k in 1..=40u64 {
+            println!("C04.fix\ttdr:{}", 7919 * k);
         }
         return;
     }
@@ -491,6 +519,15 @@ pub fn run(args: &Args, out: &mut Out) {
         run_one(&format!("dfn:{}", seed), out, &mut hist);
     }
     out.stat(&format!("{{\"stream\":\"declaration-forms\",\"programs\":{},\"hist\":{}}}", ndfn, dfn_hist.json()));
+    // resources and resource arrays declared through typedefs, mixed with directly declared ones
+    let ntdr = n / 2;
+    let mut tdr_hist = Hist::default();
+    for _ in 0..ntdr {
+        let seed = rng.next() >> 16;
+        let _ = tdres::generate(&mut Rng::new(seed), &mut tdr_hist);
+        run_one(&format!("tdr:{}", seed), out, &mut hist);
+    }
+    out.stat(&format!("{{\"stream\":\"typedef-resources\",\"programs\":{},\"hist\":{}}}", ntdr, tdr_hist.json()));
     let corpus = repo_corpus(&repo);
     let take = if args.thorough() { corpus.len() } else { corpus.len().min(31) };
     let step = (corpus.len() / take.max(1)).max(1);
